@@ -7,7 +7,7 @@ obtained by walking down from `tree.children` (identity everywhere).
 from __future__ import annotations
 
 from .. import gen
-from ..core import CaseTimeout, case_deadline, rng_for, short_tb
+from ..core import CaseTimeout, case_deadline, rng_for, short_tb, note_exc
 
 PROP = "C10"
 LEVEL = "exploration"
@@ -209,6 +209,14 @@ def run_case(case, res):
                             break
                     chk("get_common_ancestor", x.get_common_ancestor(y), common, x)
                     res.count("pairs")
+            lv = [x for x in order if not kids[id(x)]]
+            if len(lv) >= 2 and not typed:
+                got0 = lv[0].children
+                if isinstance(got0, list) and not got0:
+                    got0.append("sentinel")
+                    if list(lv[1].children) or lv[1].get_children() or list(lv[0].children) or lv[0].has_children() or not lv[0].is_leaf():
+                        bad.append("extending the empty list returned by leaf.children changed what leaves report")
+                    res.count("leaf_list_mutations")
             chk("tree.calc_height", t.calc_height(), max(depth.values(), default=0))
             chk("tree.children", list(t.children), kids["root"])
             chk("tree.get_toplevel_nodes", list(t.get_toplevel_nodes()), kids["root"])
@@ -221,7 +229,7 @@ def run_case(case, res):
         res.inconc("case watchdog fired")
         return
     except Exception:
-        bad.append("exception escaped: " + short_tb())
+        note_exc(res, bad, "exception escaped from the library: ")
     if bad:
         res.violation(case, "; ".join(bad[:3]), n_bad=len(bad))
 
